@@ -369,7 +369,8 @@ pub fn compaction(tier: Tier, shard: usize, n: usize) -> Report {
 			let fork: Vec<Ev> = (71..=91).map(|h| Ev::B(tree.blocks.iter().position(|b| b.name == format!("w{}", h)).unwrap())).collect();
 			let tip = tree.blocks.iter().position(|b| b.name == "w91");
 			let mut finals: Vec<(String, Fp)> = vec![];
-			for variant in ["no-compaction", "compact", "compact+reopen"] {
+			let x91 = tree.blocks.iter().position(|b| b.name == "x91").unwrap();
+			for variant in ["no-compaction", "compact", "compact+reopen", "header-ahead+compact", "header-ahead+compact+reopen"] {
 				let d = scr.fresh("hz");
 				let mut live = Live::open(&tree, &d, Options::NONE);
 				for e in &main {
@@ -377,6 +378,12 @@ pub fn compaction(tier: Tier, shard: usize, n: usize) -> Report {
 					assert!(o.ok, "builder: main chain refused: {}", o.err);
 				}
 				let mut hist: Vec<Ev> = vec![];
+				if variant.starts_with("header-ahead") {
+					// the header chain is one block ahead of the bodies when the compaction runs
+					let o = live.apply(&Ev::H(x91));
+					hist.push(Ev::H(x91));
+					assert!(o.ok, "builder: header x91 refused: {}", o.err);
+				}
 				if variant != "no-compaction" {
 					let o = live.apply(&Ev::Compact);
 					hist.push(Ev::Compact);
@@ -384,7 +391,7 @@ pub fn compaction(tier: Tier, shard: usize, n: usize) -> Report {
 						rep.violation("horizon-fork:compact-failed", format!("Chain::compact = {}", o.err), json!({"instance": "long+w", "variant": variant}));
 					}
 				}
-				if variant == "compact+reopen" {
+				if variant.ends_with("compact+reopen") {
 					live.apply(&Ev::Reopen);
 					hist.push(Ev::Reopen);
 				}
